@@ -13,7 +13,7 @@ from __future__ import annotations
 import ast
 from typing import Any, Optional
 
-from .model import AnalysisError, FuncInfo, NotConst, Repo, norm, short
+from .model import ClassInfo, AnalysisError, FuncInfo, NotConst, Repo, norm, short
 
 ZERO = "ZERO"
 E: frozenset = frozenset()
@@ -88,6 +88,9 @@ def with_t(o: Obj, extra) -> Obj:
     if extra <= o.t:
         return o
     n = Obj(o.kind if o.kind != "none" else "scalar", o.t | extra, o.val)
+    if o.kind == "keyset":
+        for m_, lab in o.fields.items():
+            n.fields[m_] = Obj("scalar", lab.t | extra)
     return n
 
 
@@ -120,6 +123,15 @@ def joinv(a: Optional[Obj], b: Optional[Obj], _d=0) -> Optional[Obj]:
         return b
     if b.kind in ("none", "emptydict") and a.kind not in ("scalar", "const", "str"):
         return a
+    # one of finitely many attribute keys, or None: the key set stays known (None is never used as a key)
+    if a.kind == "none" and b.kind == "const" and isinstance(b.val, str):
+        o = Obj("keyset", b.t, [b.val])
+        o.fields[b.val] = Obj("scalar", b.t)
+        return o
+    if b.kind == "none" and a.kind == "const" and isinstance(a.val, str):
+        o = Obj("keyset", a.t, [a.val])
+        o.fields[a.val] = Obj("scalar", a.t)
+        return o
     if a.kind == "const" and b.kind == "const" and a.val == b.val:
         return Obj("const", a.t | b.t, a.val)
     if a.kind == "str" and b.kind in ("str", "const", "keyset") and (b.kind != "const" or isinstance(b.val, str)):
@@ -132,7 +144,14 @@ def joinv(a: Optional[Obj], b: Optional[Obj], _d=0) -> Optional[Obj]:
         if all(isinstance(x, str) for x in va + vb):
             vals = sorted(set(va + vb))
             if len(vals) <= 8:
-                return Obj("keyset", a.t | b.t, vals)      # one of finitely many constant strings (attribute keys)
+                o = Obj("keyset", a.t | b.t, vals)      # one of finitely many constant strings (attribute keys)
+                # what each member depends on is kept per member: a key chosen by a test on the line carries that test only
+                for src in (a, b):
+                    for m_ in ([src.val] if src.kind == "const" else list(src.val)):
+                        own = src.fields[m_].t if (src.kind == "keyset" and m_ in src.fields) else src.t
+                        prev = o.fields.get(m_)
+                        o.fields[m_] = Obj("scalar", (prev.t | own) if prev is not None else own)
+                return o
             return string(a.t | b.t)
     return scalar(taint(a) | taint(b))
 
@@ -274,8 +293,8 @@ class HeapInterp:
         if fr.loop_if_depth:
             fr.loop_if_depth[-1] += 1
         try:
-            tt = self.block(list(st.body) + list(rest), et, fr, pc2)
-            tf = self.block(list(st.orelse) + list(rest), ef, fr, pc2)
+            tt = self.block(list(st.body) + list(rest), et, fr, pc2 | self._branch_labels(env, et))
+            tf = self.block(list(st.orelse) + list(rest), ef, fr, pc2 | self._branch_labels(env, ef))
         finally:
             self._split_depth -= 1
             if fr.loop_if_depth:
@@ -384,8 +403,8 @@ class HeapInterp:
                 fr.loop_if_depth[-1] += 1
             try:
                 self._zero_filter_idiom(st, et, fi)
-                tt = self.block(st.body, et, fr, pc2)
-                tf = self.block(st.orelse, ef, fr, pc2)
+                tt = self.block(st.body, et, fr, pc2 | self._branch_labels(env, et))
+                tf = self.block(st.orelse, ef, fr, pc2 | self._branch_labels(env, ef))
             finally:
                 if fr.loop_if_depth:
                     fr.loop_if_depth[-1] -= 1
@@ -498,6 +517,17 @@ class HeapInterp:
             if name and name in env and env[name].kind == "const" and isinstance(env[name].val, (int, float)) and not isinstance(env[name].val, bool):
                 env[name] = scalar(env[name].t | {ZERO})
 
+    @staticmethod
+    def _branch_labels(env, refined) -> frozenset:
+        """what the branch learned about its text values (starts with / equals / contains): everything done in the branch
+        is done under that knowledge"""
+        out = set()
+        for k, v in refined.items():
+            old = env.get(k)
+            if old is not None and v is not old and v.kind in ("str", "scalar", "const"):
+                out |= {x for x in (v.t - old.t) if isinstance(x, str) and x.startswith("@sw:")}
+        return frozenset(out)
+
     def _merge_env(self, env, other):
         for k, v in other.items():
             env[k] = joinv(env.get(k), v) if k in env else v
@@ -589,9 +619,12 @@ class HeapInterp:
                 base.fields.setdefault("?", v)
                 return
             for k in ks:
-                base.fields[k] = joinv(base.fields.get(k), v)
+                vk = v
+                if key.kind == "keyset" and k in key.fields and v.kind in ("scalar", "const", "str", "keyset"):
+                    vk = with_t(v, frozenset(x for x in key.fields[k].t if x != ZERO))     # the path on which this very key was chosen
+                base.fields[k] = joinv(base.fields.get(k), vk)
                 if k in self.sink_keys:
-                    self.events.append(Event("store", k, taint(v), fr.fi, st))
+                    self.events.append(Event("store", k, taint(vk), fr.fi, st))
         elif base.kind == "map":
             base.keyt = base.keyt | prov(key)
             self._join_into(base, v)
@@ -619,6 +652,13 @@ class HeapInterp:
         return m.elem
 
     def merge_into(self, rec: Obj, other: Obj, fr: Frame, st, pc=E):
+        if other.kind in ("zip", "enumerate", "tuple") and other.kind != "rec":
+            pairs = self.iter_elems(other)
+            if all(p_.kind == "tuple" and p_.items is not None and len(p_.items) == 2 for p_ in pairs):
+                for p_ in pairs:
+                    self.store(rec, p_.items[0], with_t(p_.items[1], pc), fr, st)
+                return
+            raise AnalysisError(f"reader interpreter: dict update from a sequence whose elements are not pairs at {fr.fi.loc(st)}")
         if other.kind == "list":
             # an iterable of (key, value) pairs
             el = other.elem
@@ -790,6 +830,11 @@ class HeapInterp:
             els = [self.iter_elems(x) for x in it.val]
             if any(not e for e in els):
                 return []
+            fixed = [len(e) for x, e in zip(it.val, els) if x.kind == "tuple"]
+            if fixed and len(set(fixed)) == 1 and all(x.kind == "tuple" or len(e) == 1 for x, e in zip(it.val, els)):
+                # sequences of known equal length pair up position by position
+                n_ = fixed[0]
+                return [self.mktuple([e[i] if len(e) == n_ else e[0] for e in els]) for i in range(n_)]
             return [self.mktuple([joinall(e) for e in els])]
         raise AnalysisError(f"reader interpreter: iteration over {it.kind}")
 
@@ -844,9 +889,17 @@ class HeapInterp:
         return const(v)
 
     def e_Constant(self, e, env, pc, fi):
+        if e.value is None:
+            return NONE()
         return const(e.value) if not isinstance(e.value, str) else Obj("const", E, e.value)
 
     def e_Name(self, e, env, pc, fi):
+        if e.id not in env:
+            r0 = self.repo.resolve(fi.module, e.id)
+            if r0 and r0[0] == "class":
+                o = Obj("class")
+                o.val = r0[1]
+                return o
         if e.id in env:
             return env[e.id]
         r = self.repo.resolve(fi.module, e.id)
@@ -902,11 +955,25 @@ class HeapInterp:
         if not e.keys:
             return Obj("emptydict", site=id(e))
         keys = [self.ev(k, env, pc, fi) if k is not None else None for k in e.keys]
-        if all(k is not None and self.keyset(k) is not None for k in keys):
+        spread = {i: self.ev(v, env, pc, fi) for i, (k, v) in enumerate(zip(keys, e.values)) if k is None}
+        if all((k is not None and self.keyset(k) is not None) or (k is None and spread[i].kind in ("rec", "emptydict", "none")) for i, k in enumerate(keys)):
             o = Obj("rec", site=id(e))
-            for k, v in zip(keys, e.values):
-                val = with_t(self.ev(v, env, pc, fi), pc)
+            for i, (k, v) in enumerate(zip(keys, e.values)):
+                if k is None:
+                    # {**other}: the other record's fields are copied in
+                    src = spread[i]
+                    if src.kind == "rec":
+                        for kk, val in src.fields.items():
+                            val = with_t(val, pc)
+                            o.fields[kk] = joinv(o.fields.get(kk), val)
+                            if kk in self.sink_keys and self.frames and val.kind in ("scalar", "const", "str"):
+                                self.events.append(Event("store", kk, taint(val), self.frames[-1].fi, e))
+                    continue
+                val0 = with_t(self.ev(v, env, pc, fi), pc)
                 for kk in self.keyset(k):
+                    val = val0
+                    if k.kind == "keyset" and kk in k.fields and val0.kind in ("scalar", "const", "str", "keyset"):
+                        val = with_t(val0, frozenset(x for x in k.fields[kk].t if x != ZERO))
                     o.fields[kk] = joinv(o.fields.get(kk), val)
                     if kk in self.sink_keys and self.frames and val.kind in ("scalar", "const", "str"):
                         self.events.append(Event("store", kk, taint(val), self.frames[-1].fi, e))
@@ -1030,7 +1097,9 @@ class HeapInterp:
         return string(prov(self.ev(e.value, env, pc, fi)))
 
     def e_Lambda(self, e, env, pc, fi):
-        return Obj("unknown")
+        o = Obj("lambda")
+        o.val = (e, dict(env))
+        return o
 
     def e_Starred(self, e, env, pc, fi):
         return self.ev(e.value, env, pc, fi)
@@ -1062,6 +1131,20 @@ class HeapInterp:
             return scalar(taint(b) | prov(st))
         k = self.ev(e.slice, env, pc, fi)
         kp = prov(k)
+        if k.kind == "const" and isinstance(k.val, slice) and k.val.step is None and (b.kind == "str" or (b.kind == "const" and isinstance(b.val, str))):
+            # a named column range:  line[_X_COLS]  with  _X_COLS = slice(0, 10)
+            lo = "" if k.val.start is None else k.val.start
+            hi = "" if k.val.stop is None else k.val.stop
+            return string(prov(b) | {f"@col[{lo}:{hi}]"})
+        if (k.kind == "const" and isinstance(k.val, slice) or k.kind == "sliceobj") and b.kind == "list":
+            o = Obj("list")
+            o.elem, o.t = b.elem, b.t           # which rows are selected is structure, not value provenance
+            o.val = "lines" if b.val == "lines" else None
+            return o
+        if k.kind == "sliceobj" and (b.kind == "str" or (b.kind == "const" and isinstance(b.val, str))):
+            sv = k.val
+            lab = f"{'' if sv is None or sv.start is None else sv.start}:{'' if sv is None or sv.stop is None else sv.stop}" if isinstance(sv, slice) else norm(e.slice)
+            return string(prov(b) | prov(k) | {f"@col[{lab}]"})
         if b.kind == "rec":
             ks = self.keyset(k)
             r = None
@@ -1128,9 +1211,21 @@ class HeapInterp:
                 return Obj("func", val=r[1])
             if r[0] == "ext":
                 return Obj("ext", val=r)
+        if r is not None and r[0] == "class":
+            o = Obj("class")
+            o.val = r[1]
+            return o
         b = self.ev(e.value, env, pc, fi)
-        if b.kind in ("rec", "instance") and ("." + e.attr) in b.fields:
+        if b.kind in ("rec", "instance", "tuple") and ("." + e.attr) in b.fields:
             return b.fields["." + e.attr]
+        if b.kind in ("instance", "tuple") and isinstance(b.val, ClassInfo):
+            m = self.repo.mro_method(b.val, e.attr)
+            if m is not None and any(norm(d).split(".")[-1] in ("property", "cached_property") for d in m.node.decorator_list):
+                return self.call(m, [b], {}, pc)
+            if m is not None:
+                o = Obj("func", val=m)
+                o.fields["self"] = b
+                return o
         o = Obj("attr")
         o.val = (b, e.attr)
         return o
@@ -1200,15 +1295,16 @@ class HeapInterp:
             if r and r[0] == "ext":
                 return self.ext(r[1], args, kwargs, e, pc, fi)
         if isinstance(f, ast.Name) and f.id in env:
-            fv = env[f.id]
-            if fv.kind == "func":
-                return self.call(fv.val, args, kwargs, pc)
-            return scalar(frozenset().union(*[taint(a) for a in args]) if args else E)
+            return self.call_value(env[f.id], args, kwargs, pc, e, fi)
         if isinstance(f, ast.Attribute):
             r = None
             if isinstance(f.value, (ast.Name, ast.Attribute)) and not (isinstance(f.value, ast.Name) and f.value.id in env):
                 r = self.repo.resolve_dotted(fi.module, f)
             if r and r[0] == "func":
+                if r[1].cls is not None and any(norm(d).split(".")[-1] == "classmethod" for d in r[1].node.decorator_list):
+                    c = Obj("class")
+                    c.val = r[1].cls
+                    return self.call(r[1], [c] + args, kwargs, pc)
                 return self.call(r[1], args, kwargs, pc)
             if r and r[0] == "class":
                 return self.ctor(r[1], args, kwargs, pc, e, fi)
@@ -1216,14 +1312,59 @@ class HeapInterp:
                 return self.ext(r[1], args, kwargs, e, pc, fi)
             recv = self.ev(f.value, env, pc, fi)
             return self.method(recv, f.attr, args, kwargs, e, env, pc, fi)
+        if isinstance(f, (ast.Call, ast.Subscript, ast.Lambda, ast.IfExp)):
+            return self.call_value(self.ev(f, env, pc, fi), args, kwargs, pc, e, fi)
         raise AnalysisError(f"reader interpreter: call `{short(e)}` at {fi.loc(e)} not resolved")
 
+    def call_value(self, fv: Obj, args, kwargs, pc, e, fi):
+        """call of something held in a variable: a tucan function (possibly with arguments bound by partial or to an
+        instance), a class, a lambda"""
+        if fv.kind == "func" and isinstance(fv.val, FuncInfo):
+            pre = list(fv.fields.get("args", Obj("tuple")).items or []) if "args" in fv.fields else []
+            if "self" in fv.fields:
+                pre = [fv.fields["self"]] + pre
+            kw = dict(fv.fields.get("kwargs").fields) if "kwargs" in fv.fields else {}
+            kw.update(kwargs)
+            return self.call(fv.val, pre + list(args), kw, pc)
+        if fv.kind == "class":
+            return self.ctor(fv.val, args, kwargs, pc, e, fi)
+        if fv.kind == "lambda":
+            lam, cenv = fv.val
+            env2 = dict(cenv)
+            for p_, a_ in zip(lam.args.args, args):
+                env2[p_.arg] = a_
+            return self.ev(lam.body, env2, pc, fi)
+        if fv.kind == "ext" and fv.val and fv.val[0] == "ext":
+            return self.ext(fv.val[1], args, kwargs, e, pc, fi)
+        if fv.kind == "builtin":
+            return self.builtin(fv.val, args, kwargs, e, {}, pc, fi)
+        return scalar(frozenset().union(*[taint(a) for a in args]) if args else E)
+
     def ctor(self, ci, args, kwargs, pc, e, fi):
-        if any(b in ("NamedTuple", "typing.NamedTuple") for b in ci.bases):
-            o = Obj("rec")
+        bases = self.repo.base_names(ci)
+        decos = [norm(d).split("(")[0].split(".")[-1] for d in ci.node.decorator_list]
+        is_nt = any(b.split(".")[-1] == "NamedTuple" for b in bases)
+        if (is_nt or "dataclass" in decos) and self.repo.mro_method(ci, "__init__") is None:
             names = [st.target.id for st in ci.node.body if isinstance(st, ast.AnnAssign) and isinstance(st.target, ast.Name)]
-            for n, a in zip(names, args):
-                o.fields["." + n] = a
+            defaults = {st.target.id: st.value for st in ci.node.body if isinstance(st, ast.AnnAssign) and isinstance(st.target, ast.Name) and st.value is not None}
+            vals = []
+            for i, n in enumerate(names):
+                if i < len(args):
+                    vals.append(args[i])
+                elif n in kwargs:
+                    vals.append(kwargs[n])
+                elif n in defaults:
+                    vals.append(self.ev(defaults[n], {}, pc, fi))
+                else:
+                    vals.append(scalar())
+            # a NamedTuple is a tuple (unpackable, indexable) whose items also have names; a dataclass has the names only
+            o = self.mktuple(vals) if is_nt else Obj("instance")
+            o.val = ci
+            for n, v in zip(names, vals):
+                o.fields["." + n] = v
+            post = self.repo.mro_method(ci, "__post_init__")
+            if post is not None:
+                self.call(post, [o], {}, pc)
             return o
         if any("Exception" in b or "Error" in b for b in self.repo.base_names(ci)):
             return scalar()
@@ -1302,6 +1443,27 @@ class HeapInterp:
             return scalar(allp)
         if name == "open":
             return Obj("file")
+        if name == "slice":
+            o = Obj("sliceobj", allp)
+            if all(x.kind == "const" for x in a):
+                try:
+                    o.val = slice(*[x.val for x in a])
+                except Exception:
+                    o.val = None
+            return o
+        if name == "map" and a and a[0].kind in ("func", "class", "lambda", "builtin", "ext") and len(a) >= 2:
+            cols = [self.iter_elems(x) for x in a[1:]]
+            n_ = max(len(c) for c in cols) if cols else 0
+            results = []
+            for i in range(n_):
+                argv = [c[i] if i < len(c) else (c[-1] if c else scalar()) for c in cols]
+                results.append(self.call_value(a[0], argv, {}, pc, e, fi))
+            if all(x.kind == "tuple" for x in a[1:]) and results:
+                return self.mktuple(results)        # one result per position of the fixed-length inputs
+            o = Obj("list")
+            for r_ in results:
+                o.elem = joinv(o.elem, r_)
+            return o
         if name in ("map", "filter"):
             o = Obj("list")
             for x in a[1:]:
@@ -1322,6 +1484,17 @@ class HeapInterp:
     def ext(self, q, a, kw, e, pc, fi):
         allt = frozenset().union(*[taint(x) for x in a]) if a else E
         allp = frozenset(x for x in allt if x != ZERO)
+        if q in ("functools.partial",) and a and a[0].kind == "func":
+            o = Obj("func", val=a[0].val)
+            o.fields.update(a[0].fields)
+            prev = list(o.fields["args"].items) if "args" in o.fields else []
+            o.fields["args"] = self.mktuple(prev + list(a[1:]))
+            kwo = Obj("rec")
+            if "kwargs" in o.fields:
+                kwo.fields.update(o.fields["kwargs"].fields)
+            kwo.fields.update(kw)
+            o.fields["kwargs"] = kwo
+            return o
         if q in ("collections.deque",):
             if not a:
                 return Obj("list", site=id(e))
